@@ -157,9 +157,80 @@ func verifC18ResultString(r ApplyResult) string {
 // ---------------------------------------------------------------------------
 
 type verifC18Gen struct {
-	rt  *rapid.T
-	cur state.ClusterState
-	seq int
+	rt     *rapid.T
+	cur    state.ClusterState
+	seq    int
+	script []string // forced, defect-free opening moves (reach the replica-move workflow quickly)
+	last   []byte   // previous command, encoded (proposers retry: the same command may be committed twice)
+	lastTag string
+}
+
+// scripted returns a clean command for one opening move.
+func (g *verifC18Gen) scripted(step string) (cmd command.Command, tag string, ok bool) {
+	cur := g.cur
+	cmd.IssuedAt = g.issuedAt()
+	switch step {
+	case "init":
+		if cur.Revision != 0 {
+			return cmd, "", false
+		}
+		init := &command.InitClusterState{ClusterID: "wk-scripted", Config: state.ClusterConfig{SlotCount: 2, HashSlotCount: 16, ReplicaCount: uint16(rapid.IntRange(1, 3).Draw(g.rt, "scriptReplicas"))}}
+		for i := uint64(1); i <= 5; i++ {
+			n := state.Node{NodeID: i, Name: fmt.Sprintf("node-%d", i), Addr: fmt.Sprintf("n%d:7000", i), Roles: []state.NodeRole{state.NodeRoleData}, JoinState: state.NodeJoinStateActive, Status: state.NodeStatusAlive, CapacityWeight: 1}
+			if i <= 2 {
+				n.Roles = []state.NodeRole{state.NodeRoleControllerVoter, state.NodeRoleData}
+				init.Controllers = append(init.Controllers, state.ControllerVoter{NodeID: i, Addr: n.Addr, Role: state.ControllerRoleVoter})
+			}
+			init.Nodes = append(init.Nodes, n)
+		}
+		cmd.Kind, cmd.Init = command.KindInitClusterState, init
+		return cmd, "script/init", true
+	case "bootstrap":
+		pool := g.dataNodes(true)
+		rc := int(cur.Config.ReplicaCount)
+		if cur.Revision == 0 || len(pool) < rc || len(cur.Slots) > 0 {
+			return cmd, "", false
+		}
+		peers := append([]uint64(nil), pool[:rc]...)
+		a := &state.SlotAssignment{SlotID: 1, DesiredPeers: peers, ConfigEpoch: 1, PreferredLeader: peers[0]}
+		t := &state.ReconcileTask{TaskID: "slot-1-bootstrap-1", SlotID: 1, Kind: state.TaskKindBootstrap, Step: state.TaskStepCreateSlot, TargetNode: peers[0], TargetPeers: verifC18Sorted(peers), ConfigEpoch: 1, Status: state.TaskStatusPending}
+		cmd.Kind, cmd.Assignment, cmd.Task = command.KindUpsertSlotAssignmentAndTask, a, t
+		return cmd, "script/bootstrap", true
+	case "complete":
+		if len(cur.Tasks) != 1 {
+			return cmd, "", false
+		}
+		t := cur.Tasks[0]
+		cmd.Kind = command.KindCompleteTask
+		cmd.TaskResult = &command.TaskResult{TaskID: t.TaskID, SlotID: t.SlotID, TaskKind: t.Kind, ConfigEpoch: t.ConfigEpoch, Attempt: t.Attempt}
+		return cmd, "script/complete", true
+	case "move":
+		if len(cur.Slots) == 0 || len(cur.Tasks) != 0 {
+			return cmd, "", false
+		}
+		a := cur.Slots[0]
+		src := a.DesiredPeers[g.pick("scriptSrc", len(a.DesiredPeers))]
+		var dst uint64
+		for _, id := range g.dataNodes(true) {
+			if !verifC18Contains(a.DesiredPeers, id) {
+				dst = id
+			}
+		}
+		if dst == 0 {
+			return cmd, "", false
+		}
+		tp := append([]uint64(nil), a.DesiredPeers...)
+		for i := range tp {
+			if tp[i] == src {
+				tp[i] = dst
+			}
+		}
+		t := state.ReconcileTask{TaskID: "slot-1-move-s", SlotID: a.SlotID, Kind: state.TaskKindSlotReplicaMove, Step: state.TaskStepOpenLearner, SourceNode: src, TargetNode: dst,
+			TargetPeers: verifC18Sorted(tp), ConfigEpoch: a.ConfigEpoch, Status: state.TaskStatusPending, CompletionPolicy: state.TaskCompletionPolicySingleObserver}
+		cmd.Kind, cmd.Task = command.KindUpsertSlotReplicaMoveTask, &t
+		return cmd, "script/move", true
+	}
+	return cmd, "", false
 }
 
 func (g *verifC18Gen) pick(label string, n int) int { return rapid.IntRange(0, n-1).Draw(g.rt, label) }
@@ -319,6 +390,21 @@ func (g *verifC18Gen) taskResultFor(t state.ReconcileTask) (*command.TaskResult,
 func (g *verifC18Gen) next() (cmd command.Command, tag string) {
 	g.seq++
 	cur := g.cur
+	for len(g.script) > 0 {
+		step := g.script[0]
+		g.script = g.script[1:]
+		if c, t, ok := g.scripted(step); ok {
+			return c, t
+		}
+	}
+	if g.last != nil && g.chance("retryPrevious", 8) {
+		if c, err := command.Decode(g.last); err == nil {
+			if c.ExpectedRevision != nil && rapid.Bool().Draw(g.rt, "retryDropsGuard") {
+				c.ExpectedRevision = nil
+			}
+			return c, "retry:" + g.lastTag
+		}
+	}
 	if cur.Revision == 0 {
 		if !g.chance("preInitOther", 5) {
 			return g.initCommand()
@@ -372,7 +458,49 @@ func (g *verifC18Gen) next() (cmd command.Command, tag string) {
 		assigned[a.SlotID] = a
 	}
 
-	kinds := []string{"node", "node", "voters", "promote", "bootstrap", "bootstrap", "bootstrap", "leader", "move", "move", "advance", "advance", "advance", "commit", "complete", "complete", "fail", "progress", "progress", "health", "health", "hashslots", "backup", "mcp", "reinit", "unknown"}
+	// commands that can make progress in the current state are preferred, so
+	// that histories reach the deep task workflows; the rest of the time any
+	// kind is drawn (missing tasks, pre-init, unknown kinds ...).
+	kinds := []string{"node", "node", "voters", "promote", "health", "health", "hashslots", "backup", "mcp"}
+	freeSlot, idleSlot, spareNode := false, false, false
+	for s := uint32(1); s <= cur.Config.SlotCount; s++ {
+		a, ok := assigned[s]
+		if !ok {
+			freeSlot = true
+		} else if !taskSlots[s] {
+			idleSlot = true
+			for _, id := range g.dataNodes(true) {
+				if !verifC18Contains(a.DesiredPeers, id) {
+					spareNode = true
+				}
+			}
+		}
+	}
+	if freeSlot && len(g.dataNodes(false)) >= int(cur.Config.ReplicaCount) {
+		kinds = append(kinds, "bootstrap", "bootstrap", "bootstrap")
+	}
+	if idleSlot && cur.Config.ReplicaCount >= 2 {
+		kinds = append(kinds, "leader", "leader")
+	}
+	if idleSlot && spareNode {
+		kinds = append(kinds, "move", "move", "move", "move")
+	}
+	for _, m := range moveTasks {
+		if m.Step == state.TaskStepCommitAssignment {
+			kinds = append(kinds, "commit", "commit", "commit", "commit", "commit", "commit", "advance")
+		} else {
+			kinds = append(kinds, "advance", "advance", "advance", "advance", "advance", "advance", "advance", "advance", "commit")
+		}
+	}
+	if len(anyTasks) > 0 {
+		kinds = append(kinds, "complete", "complete", "fail")
+	}
+	if len(bootTasks) > 0 {
+		kinds = append(kinds, "progress", "progress", "progress")
+	}
+	if cur.Revision == 0 || g.chance("anyKind", 5) {
+		kinds = []string{"node", "voters", "promote", "bootstrap", "leader", "move", "advance", "commit", "complete", "fail", "progress", "health", "hashslots", "backup", "mcp", "reinit", "reinit", "unknown"}
+	}
 	switch kinds[g.pick("kind", len(kinds))] {
 	case "node":
 		cmd.Kind = command.KindUpsertNode
@@ -434,6 +562,9 @@ func (g *verifC18Gen) next() (cmd command.Command, tag string) {
 			if rapid.Bool().Draw(g.rt, "inVoters") {
 				cmd.Controllers = append(cmd.Controllers, state.ControllerVoter{NodeID: n.NodeID, Addr: n.Addr, Role: state.ControllerRoleVoter})
 			}
+		}
+		if len(cmd.Controllers) > 1 {
+			cmd.Controllers = rapid.Permutation(cmd.Controllers).Draw(g.rt, "voterOrder")
 		}
 		if g.chance("votersDefect", 8) && len(cmd.Controllers) > 0 {
 			cmd.Controllers = append(cmd.Controllers, cmd.Controllers[0])
@@ -605,6 +736,11 @@ func (g *verifC18Gen) next() (cmd command.Command, tag string) {
 			return
 		}
 		t := moveTasks[g.pick("advTask", len(moveTasks))]
+		for _, m := range moveTasks {
+			if m.Step != state.TaskStepCommitAssignment && !g.chance("advAtCommit", 8) {
+				t = m
+			}
+		}
 		p := &command.SlotReplicaMovePhaseAdvance{TaskID: t.TaskID, SlotID: t.SlotID, ConfigEpoch: t.ConfigEpoch, Attempt: t.Attempt, ExpectedPhaseIndex: t.PhaseIndex,
 			ObservedConfigIndex: uint64(rapid.IntRange(1, 1000).Draw(g.rt, "obsIdx"))}
 		srcPeers := append([]uint64(nil), t.TargetPeers...)
@@ -635,7 +771,7 @@ func (g *verifC18Gen) next() (cmd command.Command, tag string) {
 			p.NextStep = state.TaskStepCommitAssignment
 			tag = "advance/already_at_commit"
 		}
-		switch rapid.IntRange(0, 15).Draw(g.rt, "advStale") {
+		switch rapid.IntRange(0, 23).Draw(g.rt, "advStale") {
 		case 0:
 			p.Attempt++
 			tag = "advance/stale_attempt"
@@ -702,9 +838,18 @@ func (g *verifC18Gen) next() (cmd command.Command, tag string) {
 	case "complete", "fail":
 		cmd.Kind = command.KindCompleteTask
 		tag = "complete"
-		if rapid.IntRange(0, 2).Draw(g.rt, "failInstead") == 0 {
+		if rapid.IntRange(0, 3).Draw(g.rt, "failInstead") == 0 {
 			cmd.Kind = command.KindFailTask
 			tag = "fail"
+		}
+		// a staged replica move is finished by commit, not by complete: keep those alive mostly
+		if len(moveTasks) > 0 && len(anyTasks) > len(moveTasks) && !g.chance("completeMove", 4) {
+			anyTasks = anyTasks[:0]
+			for _, t := range cur.Tasks {
+				if t.Kind != state.TaskKindSlotReplicaMove {
+					anyTasks = append(anyTasks, t)
+				}
+			}
 		}
 		if len(anyTasks) == 0 {
 			cmd.TaskResult = &command.TaskResult{TaskID: "slot-9-none", SlotID: 1, TaskKind: state.TaskKindBootstrap, ConfigEpoch: 1}
@@ -817,6 +962,9 @@ func (g *verifC18Gen) next() (cmd command.Command, tag string) {
 				tbl.Ranges = append(tbl.Ranges, state.HashSlotRange{From: uint16(from), To: uint16(x - 1), SlotID: uint32(rapid.IntRange(1, sc).Draw(g.rt, "owner"))})
 				from = x
 			}
+		}
+		if len(tbl.Ranges) > 1 && rapid.Bool().Draw(g.rt, "shuffleRanges") {
+			tbl.Ranges = rapid.Permutation(tbl.Ranges).Draw(g.rt, "rangeOrder")
 		}
 		switch rapid.IntRange(0, 9).Draw(g.rt, "hsDefect") {
 		case 0:
@@ -936,7 +1084,13 @@ func TestVerifC18Determinism(t *testing.T) {
 			fail("Load on an empty store: %v", err)
 		}
 		g := &verifC18Gen{rt: rt}
-		nEntries := rapid.IntRange(4, 48).Draw(rt, "nEntries")
+		switch rapid.IntRange(0, 3).Draw(rt, "opening") {
+		case 0:
+			g.script = []string{"init", "bootstrap", "complete", "move"}
+		case 1:
+			g.script = []string{"init", "bootstrap"}
+		}
+		nEntries := rapid.IntRange(4, 64).Draw(rt, "nEntries")
 		index := uint64(rapid.IntRange(0, 20).Draw(rt, "firstIndex"))
 		term := uint64(1)
 		var log []verifC18Entry
@@ -952,6 +1106,9 @@ func TestVerifC18Determinism(t *testing.T) {
 			data, err := command.Encode(cmd)
 			if err != nil {
 				fail("command.Encode(%s): %v", tag, err)
+			}
+			if !strings.HasPrefix(tag, "retry:") {
+				g.last, g.lastTag = data, tag
 			}
 			index += uint64(rapid.IntRange(1, 3).Draw(rt, "indexGap"))
 			if rapid.IntRange(0, 9).Draw(rt, "termBump") == 0 {
@@ -1053,7 +1210,7 @@ func TestVerifC18Determinism(t *testing.T) {
 		dir, cleanup := kit.TempDir()
 		defer cleanup()
 		multiBatch, restarts, replays, failedSaves := 0, 0, 0, 0
-		runReplica := func(name string, store *verifC18Store, chaos bool, maxBatch int) string {
+		runReplica := func(name string, store *verifC18Store, chaos bool, maxBatch int, restartEvery bool) string {
 			sm, err := New(store)
 			if err != nil {
 				fail("New: %v", err)
@@ -1132,6 +1289,16 @@ func TestVerifC18Determinism(t *testing.T) {
 					fail("%s: FinalState differs from the published snapshot", name)
 				}
 				pos += n
+				if restartEvery {
+					// always continue from the persisted (decoded) state, never from memory
+					sm, _ = New(store)
+					if err := sm.Load(ctx); err != nil {
+						fail("%s: Load after restart: %v", name, err)
+					}
+					if c := verifC18Canon(fail, sm.Snapshot(ctx), name+" reloaded snapshot"); c != canonA[hw] {
+						fail("%s: state loaded after restart differs from the state published before it", name)
+					}
+				}
 				if chaos && rapid.IntRange(0, 3).Draw(rt, name+"Restart") == 0 {
 					// restart from the persisted state, then re-deliver some already-applied entries
 					sm, _ = New(store)
@@ -1174,13 +1341,13 @@ func TestVerifC18Determinism(t *testing.T) {
 			}
 			return verifC18Canon(fail, final, name+" final snapshot")
 		}
-		finalB := runReplica("replicaB", &verifC18Store{}, true, rapid.SampledFrom([]int{2, 4, 8, 48}).Draw(rt, "maxBatchB"))
+		finalB := runReplica("replicaB", &verifC18Store{}, true, rapid.SampledFrom([]int{2, 4, 8, 48, 128}).Draw(rt, "maxBatchB"), false)
 		storeC := &verifC18Store{}
 		onDisk := rapid.IntRange(0, 11).Draw(rt, "onDisk") == 0
 		if onDisk {
 			storeC.file = statefile.New(filepath.Join(dir, "cluster-state.json"))
 		}
-		finalC := runReplica("replicaC", storeC, false, 128)
+		finalC := runReplica("replicaC", storeC, false, 1, true)
 		if finalB != canonA[len(log)-1] || finalC != canonA[len(log)-1] {
 			fail("final states differ between replicas")
 		}
